@@ -398,7 +398,7 @@ int main(void) {
                 if (o == 1 && b) printf("skip\n");     /* refPrefix allocates a (by-reference) DDict */
                 else printf("%s\n", cls(ZSTD_DCtx_refPrefix(d, b ? PFX[1 + (b == 2)] : NULL, b ? sizeof(PFX[0]) : 0))); }
             else if (!strcmp(op, "ddec") || !strcmp(op, "ddec1")) {   /* decode fixture frame b (streaming, whole frame in one call / ZSTD_decompressDCtx), then reset the session */
-                if (c16_d_stage(d)) printf("skip\n");
+                if (c16_d_stage(d) && op[4] != '1') printf("skip\n");   /* round 3 (fix 21a1fb6): the single-call functions abandon a streaming frame in progress */
                 else { int const k = (int)(((b % 5) + 5) % 5); size_t r; size_t produced;
                     if (op[4] == '1') { r = ZSTD_decompressDCtx(d, outb, outCap, FD[k], FDsize[k]); produced = ZSTD_isError(r) ? 0 : r; if (!ZSTD_isError(r)) r = 0; }
                     else { ZSTD_inBuffer in = { FD[k], FDsize[k], 0 }; ZSTD_outBuffer out = { outb, outCap, 0 }; r = ZSTD_decompressStream(d, &out, &in); produced = out.pos; }
@@ -406,7 +406,7 @@ int main(void) {
                     else printf("err %s\n", ZSTD_isError(r) ? ZSTD_getErrorName(r) : "wrong content");
                     ZSTD_DCtx_reset(d, ZSTD_reset_session_only); dbegan[o] = 0; } }
             else if (!strcmp(op, "ddecm")) {   /* one-shot ZSTD_decompressDCtx of the concatenation of three fixture frames */
-                if (c16_d_stage(d)) printf("skip\n");
+                if (0) printf("skip\n");
                 else { size_t pos = 0, r; int q;
                     for (q = 1; q <= 3; q++) { int const k = (int)(((v[q] % 5) + 5) % 5); memcpy(expectBuf + pos, FD[k], FDsize[k]); pos += FDsize[k]; }
                     r = ZSTD_decompressDCtx(d, outb, outCap, expectBuf, pos);
@@ -414,7 +414,7 @@ int main(void) {
                     else printf("err %s\n", ZSTD_isError(r) ? ZSTD_getErrorName(r) : "wrong content");
                     ZSTD_DCtx_reset(d, ZSTD_reset_session_only); dbegan[o] = 0; } }
             else if (!strcmp(op, "ddecu")) {   /* ZSTD_decompress_usingDDict(dctx, explicit DDict b (0 = NULL), fixture frame c3) */
-                if (c16_d_stage(d)) printf("skip\n");
+                if (0) printf("skip\n");
                 else { int const k = (int)(((c3 % 5) + 5) % 5);
                     size_t const r = ZSTD_decompress_usingDDict(d, outb, outCap, FD[k], FDsize[k], b ? DDICT[1 + (b == 2)] : NULL);
                     if (!ZSTD_isError(r) && r == 300 && !memcmp(outb, srcB, 300)) printf("ok\n");
@@ -422,7 +422,7 @@ int main(void) {
                     ZSTD_DCtx_reset(d, ZSTD_reset_session_only); dbegan[o] = 0; } }
             /* ---- round 3 ---- */
             else if (!strcmp(op, "ddecr")) {   /* ZSTD_decompress_usingDict(dctx, the bytes of dictionary b (0 = NULL), fixture frame c3) */
-                if (c16_d_stage(d)) printf("skip\n");
+                if (0) printf("skip\n");
                 else { int const k = (int)(((c3 % 5) + 5) % 5); int const w = b ? 1 + (b == 2) : 0;
                     size_t const r = ZSTD_decompress_usingDict(d, outb, outCap, FD[k], FDsize[k], w ? DICT[w] : NULL, w ? DICTSZ[w] : 0);
                     if (!ZSTD_isError(r) && r == 300 && !memcmp(outb, srcB, 300)) printf("ok\n");
